@@ -36,12 +36,17 @@ STATUS.  Proved, for all inputs, the two media paths end to end and the transpor
 Schedule.  The workflow is request/response, so the only freedom a schedule has is how each direction's
 bytes are cut into calls and when acknowledgements are sent.  The theorems deliver each hop's bytes in
 one `drain`; `C15_server_session_partition` / `C15_client_session_partition` extend each successful hop to
-ANY partition into any number of calls; `drain` is `handle_input` minus the acknowledgement step:
-`C02_server_input_hop` / `C02_client_input_hop` are the hop lemmas for `handle_input` itself — an
-acknowledgement that is due (C17 says when) is sent first, changes only the receiver's serializer and
-is the first result; delivered to the peer it raises only its own event and changes nothing
-(`C02_ack_changes_nothing`).  NOT a theorem: the workflow theorems restated with those acknowledgement
-packets threaded through every hop (each hop lemma is there; the bookkeeping of the composition is not).  Metadata items: `C02_publish_metadata_item`,
+ANY partition into any number of calls.  Through the real entry point: `C02_publish_workflow_in`,
+`C02_play_workflow_in`, `C02_publish_items_in`, `C02_play_items_in`, `C02_publish_metadata_in`,
+`C02_play_metadata_in`, `C02_stop_publishing_in`, `C02_stop_playback_in` are the same theorems with every
+delivery made by `handle_input`, acknowledgements included: each call may send one acknowledgement (C17
+says when) — first in its results, it changes only the sender's serializer — the application forwards it
+with the other packets, and the call that receives it raises its event before anything else and is
+otherwise unaffected (`C02_ack_changes_nothing`); apart from those packets and events the results are
+exactly the ones above, for ANY window sizes.  NOT a theorem: schedules in which the application holds
+packets back or delivers the two directions concurrently (the workflow is request/response; the `interop`
+family runs random interleavings on the real code), and omitted droppable packets at `handle_input`
+level (the omission theorems are the `drain`-level ones; C08 / C18).  Metadata items: `C02_publish_metadata_item`,
 `C02_play_metadata_item` — exactly one metadata event carrying the sender's metadata, for every metadata
 the Rust type can hold except a frame rate that is a signalling NaN (which `as f64 as f32` quiets, as the
 hardware does): `C02_metadata_trip`, through `F64.toU32_ofU32` and `F64.toF32_ofF32`.  The model fixes one
@@ -62,6 +67,7 @@ import Rml.Lemmas.WfMeta
 import Rml.Lemmas.AckHop
 import Rml.Lemmas.Order
 import Rml.Lemmas.MetaOrder
+import Rml.Lemmas.AckFlow
 namespace Rml.C02
 open Rml Rml.Chunk Rml.Amf0 Rml.Msgs Rml.Sess
 
@@ -408,5 +414,113 @@ theorem C02_connect_any_order (v : Srv.State) (tid : Nat) (cfg : Cli.Config) (ap
 theorem C02_metadata_any_order {l l' : List (Bytes × Val)} (hp : l.Perm l') (hn : (l.map Prod.fst).Nodup) :
     applyMetadata l = applyMetadata l' :=
   Meta.applyMetadata_perm hp hn
+
+/-! ### through `handle_input`, acknowledgements included (statements and proofs: Lemmas/AckFlow.lean) -/
+open Rml.AckFlow Rml.SerHist
+
+theorem C02_publish_workflow_in (ccfg : Cli.Config) (scfg : Srv.Config) (clk : Nat → Nat) (app key : Bytes) (t : Cli.PublishType)
+    (hcw : CfgWF ccfg) (hco : CfgOK ccfg) (hsw : SCfgWF scfg)
+    (happ : Utf8.valid app = true) (hkey : Utf8.valid key = true) (hkl : key.length ≤ 65535)
+    {v0 : Srv.State} {rs0 : List Srv.Res} (hnew : Srv.new scfg (clk 0) = .ok (v0, rs0)) :
+    ∃ (A0 : Acks) (c1 : Cli.State) (b4 : Bytes), A0.ok ∧
+      Cli.handleInput ({ cfg := ccfg } : Cli.State) (clk 1) (bytesS rs0) = (c1, .ok (A0.outC ++ bannerEvents scfg (clk 0) b4)) ∧
+    ∀ c2 r1, Cli.requestConnection c1 (clk 2) app = (c2, .ok r1) →
+    ∃ (p1 : Ser.Packet) (A1 : Acks) (v1 : Srv.State), r1 = .out p1 ∧ A1.ok ∧
+      Srv.handleInput v0 (clk 3) (A0.bytes ++ p1.bytes) =
+        (v1, .ok (A1.outS ++ A0.evS ++ [.ev (.connectionRequested 0 (trimApp app))])) ∧
+    ∀ v2 rs2, Srv.acceptRequest v1 (clk 4) 0 = (v2, .ok rs2) →
+    ∃ (p2 : Ser.Packet) (A2 : Acks) (c3 : Cli.State) (pa pb : Ser.Packet) (A3 : Acks) (v3 : Srv.State), rs2 = [.out p2] ∧ A2.ok ∧ A3.ok ∧
+      Cli.handleInput c2 (clk 5) (A1.bytes ++ p2.bytes) = (c3, .ok (A2.outC ++ A1.evC ++ [.out pa, .ev .connectionAccepted, .out pb])) ∧
+      Srv.handleInput v2 (clk 6) (A2.bytes ++ (pa.bytes ++ pb.bytes)) = (v3, .ok (A3.outS ++ A2.evS)) ∧
+    ∀ c4 r3, Cli.requestStream c3 (clk 7) (.publish key t) = (c4, .ok r3) →
+    ∃ (p3 : Ser.Packet) (A4 : Acks) (v4 : Srv.State) (p4 : Ser.Packet) (A5 : Acks) (c5 : Cli.State) (p5 : Ser.Packet)
+      (A6 : Acks) (v5 : Srv.State), r3 = .out p3 ∧ A4.ok ∧ A5.ok ∧ A6.ok ∧
+      Srv.handleInput v3 (clk 8) p3.bytes = (v4, .ok (A4.outS ++ [.out p4])) ∧
+      Cli.handleInput c4 (clk 9) (A3.bytes ++ A4.bytes ++ p4.bytes) = (c5, .ok (A5.outC ++ (A3 ++ A4).evC ++ [.out p5])) ∧
+      Srv.handleInput v4 (clk 10) (A5.bytes ++ p5.bytes) =
+        (v5, .ok (A6.outS ++ A5.evS ++ [.ev (.publishRequested 1 (trimApp app) key (modeOf t))])) ∧
+    ∀ v6 rs6, Srv.acceptRequest v5 (clk 11) 1 = (v6, .ok rs6) →
+    ∃ (p6 p7 : Ser.Packet) (A7 : Acks) (c6 : Cli.State), rs6 = [.out p6, .out p7] ∧ A7.ok ∧
+      Cli.handleInput c5 (clk 12) (A6.bytes ++ (p6.bytes ++ p7.bytes)) = (c6, .ok (A7.outC ++ A6.evC ++ [.ev .publishAccepted])) ∧
+      PublishReadyP c6 v6 1 (trimApp app) key (modeOf t) A7 [] :=
+  AckFlow.publish_workflow_in ccfg scfg clk app key t hcw hco hsw happ hkey hkl hnew
+
+theorem C02_play_workflow_in (ccfg : Cli.Config) (scfg : Srv.Config) (clk : Nat → Nat) (app key : Bytes)
+    (hcw : CfgWF ccfg) (hco : CfgOK ccfg) (hbuf : ccfg.bufferLengthMs < 4294967296) (hsw : SCfgWF scfg)
+    (happ : Utf8.valid app = true) (hkey : Utf8.valid key = true) (hkl : key.length ≤ 65535)
+    {v0 : Srv.State} {rs0 : List Srv.Res} (hnew : Srv.new scfg (clk 0) = .ok (v0, rs0)) :
+    ∃ (A0 : Acks) (c1 : Cli.State) (b4 : Bytes), A0.ok ∧
+      Cli.handleInput ({ cfg := ccfg } : Cli.State) (clk 1) (bytesS rs0) = (c1, .ok (A0.outC ++ bannerEvents scfg (clk 0) b4)) ∧
+    ∀ c2 r1, Cli.requestConnection c1 (clk 2) app = (c2, .ok r1) →
+    ∃ (p1 : Ser.Packet) (A1 : Acks) (v1 : Srv.State), r1 = .out p1 ∧ A1.ok ∧
+      Srv.handleInput v0 (clk 3) (A0.bytes ++ p1.bytes) =
+        (v1, .ok (A1.outS ++ A0.evS ++ [.ev (.connectionRequested 0 (trimApp app))])) ∧
+    ∀ v2 rs2, Srv.acceptRequest v1 (clk 4) 0 = (v2, .ok rs2) →
+    ∃ (p2 : Ser.Packet) (A2 : Acks) (c3 : Cli.State) (pa pb : Ser.Packet) (A3 : Acks) (v3 : Srv.State), rs2 = [.out p2] ∧ A2.ok ∧ A3.ok ∧
+      Cli.handleInput c2 (clk 5) (A1.bytes ++ p2.bytes) = (c3, .ok (A2.outC ++ A1.evC ++ [.out pa, .ev .connectionAccepted, .out pb])) ∧
+      Srv.handleInput v2 (clk 6) (A2.bytes ++ (pa.bytes ++ pb.bytes)) = (v3, .ok (A3.outS ++ A2.evS)) ∧
+    ∀ c4 r3, Cli.requestStream c3 (clk 7) (.play key) = (c4, .ok r3) →
+    ∃ (p3 : Ser.Packet) (A4 : Acks) (v4 : Srv.State) (p4 : Ser.Packet) (A5 : Acks) (c5 : Cli.State) (p5 p6 : Ser.Packet)
+      (A6 : Acks) (v5 : Srv.State), r3 = .out p3 ∧ A4.ok ∧ A5.ok ∧ A6.ok ∧
+      Srv.handleInput v3 (clk 8) p3.bytes = (v4, .ok (A4.outS ++ [.out p4])) ∧
+      Cli.handleInput c4 (clk 9) (A3.bytes ++ A4.bytes ++ p4.bytes) = (c5, .ok (A5.outC ++ (A3 ++ A4).evC ++ [.out p5, .out p6])) ∧
+      Srv.handleInput v4 (clk 10) (A5.bytes ++ (p5.bytes ++ p6.bytes)) =
+        (v5, .ok (A6.outS ++ A5.evS ++ [.ev (.playRequested 1 (trimApp app) key .liveOrRecorded none false 1)])) ∧
+    ∀ v6 rs6, Srv.acceptRequest v5 (clk 11) 1 = (v6, .ok rs6) →
+    ∃ (A7 : Acks) (c6 : Cli.State), A7.ok ∧
+      Cli.handleInput c5 (clk 12) (A6.bytes ++ bytesS rs6) =
+        (c6, .ok (A7.outC ++ A6.evC ++ [.ev (.unhandleableOnStatus (str "NetStream.Play.Reset")), .ev .playbackAccepted])) ∧
+      PlayReadyP c6 v6 1 (trimApp app) key A7 [] :=
+  AckFlow.play_workflow_in ccfg scfg clk app key hcw hco hbuf hsw happ hkey hkl hnew
+
+theorem C02_publish_items_in {c c' : Cli.State} {v : Srv.State} {sid : Nat} {app key : Bytes} {mode : Srv.PublishMode} {A B : Acks}
+    (hr : PublishReadyP c v sid app key mode A B) (items : List Interop.Item) (ps : List Ser.Packet) (now : Nat)
+    (hts : ∀ it ∈ items, it.ts < 4294967296) (hpub : Interop.publishAll c items = some (c', ps)) :
+    ∃ (A' : Acks) (v' : Srv.State), A'.ok ∧
+      Srv.handleInput v now (A.bytes ++ wire (ps.zip (items.map (Interop.Item.msg sid)))) =
+        (v', .ok (A'.outS ++ A.evS ++ (msgs (ps.zip (items.map (Interop.Item.msg sid)))).flatMap (Interop.evOf app key))) ∧
+      PublishReadyP c' v' sid app key mode [] (B ++ A') :=
+  AckFlow.publish_items_in hr items ps now hts hpub
+
+theorem C02_play_items_in {c : Cli.State} {v v' : Srv.State} {sid : Nat} {app key : Bytes} {A B : Acks}
+    (hr : PlayReadyP c v sid app key A B) (items : List Interop.Item) (ps : List Ser.Packet) (now : Nat)
+    (hts : ∀ it ∈ items, it.ts < 4294967296) (hsend : Interop.sendAll v sid items = some (v', ps)) :
+    ∃ (B' : Acks) (c' : Cli.State), B'.ok ∧
+      Cli.handleInput c now (B.bytes ++ wire (ps.zip (items.map (Interop.Item.msg sid)))) =
+        (c', .ok (B'.outC ++ B.evC ++ (msgs (ps.zip (items.map (Interop.Item.msg sid)))).flatMap Interop.evOfC)) ∧
+      PlayReadyP c' v' sid app key (A ++ B') [] :=
+  AckFlow.play_items_in hr items ps now hts hsend
+
+theorem C02_publish_metadata_in {c c1 : Cli.State} {v : Srv.State} {sid : Nat} {app key : Bytes} {mode : Srv.PublishMode} {A B : Acks}
+    {n1 n2 : Nat} {m : Metadata} {r : Cli.Res}
+    (hr : PublishReadyP c v sid app key mode A B) (hw : MetaWF' m) (h : Cli.publishMetadata c n1 m = (c1, .ok r)) :
+    ∃ (p : Ser.Packet) (A' : Acks) (v1 : Srv.State), r = .out p ∧ A'.ok ∧
+      Srv.handleInput v n2 (A.bytes ++ p.bytes) = (v1, .ok (A'.outS ++ A.evS ++ [.ev (.metadataChanged app key m)])) ∧
+      PublishReadyP c1 v1 sid app key mode [] (B ++ A') :=
+  AckFlow.publish_metadata_in hr hw h
+
+theorem C02_play_metadata_in {c : Cli.State} {v v1 : Srv.State} {sid : Nat} {app key : Bytes} {A B : Acks}
+    {n1 n2 : Nat} {m : Metadata} {p : Ser.Packet}
+    (hr : PlayReadyP c v sid app key A B) (hw : MetaWF' m) (h : Srv.sendMetadata v n1 sid m = (v1, .ok p)) :
+    ∃ (B' : Acks) (c1 : Cli.State), B'.ok ∧
+      Cli.handleInput c n2 (B.bytes ++ p.bytes) = (c1, .ok (B'.outC ++ B.evC ++ [.ev (.metadata m)])) ∧
+      PlayReadyP c1 v1 sid app key (A ++ B') [] :=
+  AckFlow.play_metadata_in hr hw h
+
+theorem C02_stop_publishing_in {c c1 : Cli.State} {v : Srv.State} {sid : Nat} {app key : Bytes} {mode : Srv.PublishMode} {A B : Acks}
+    {n1 n2 : Nat} {rs : List Cli.Res}
+    (hr : PublishReadyP c v sid app key mode A B) (h : Cli.stop c n1 false = (c1, .ok rs)) :
+    ∃ (p : Ser.Packet) (A' : Acks) (v1 : Srv.State), rs = [.out p] ∧ A'.ok ∧
+      Srv.handleInput v n2 (A.bytes ++ p.bytes) = (v1, .ok (A'.outS ++ A.evS ++ [.ev (.publishFinished app key)])) ∧
+      InStepP c1 v1 (Acks.pairs []) (B ++ A').pairs ∧ c1.st = .connected ∧ c1.activeStream = none ∧ mapGet sid v1.streams = none :=
+  AckFlow.stop_publishing_in hr h
+
+theorem C02_stop_playback_in {c c1 : Cli.State} {v : Srv.State} {sid : Nat} {app key : Bytes} {A B : Acks}
+    {n1 n2 : Nat} {rs : List Cli.Res}
+    (hr : PlayReadyP c v sid app key A B) (h : Cli.stop c n1 true = (c1, .ok rs)) :
+    ∃ (p : Ser.Packet) (A' : Acks) (v1 : Srv.State), rs = [.out p] ∧ A'.ok ∧
+      Srv.handleInput v n2 (A.bytes ++ p.bytes) = (v1, .ok (A'.outS ++ A.evS ++ [.ev (.playFinished app key)])) ∧
+      InStepP c1 v1 (Acks.pairs []) (B ++ A').pairs ∧ c1.st = .connected ∧ c1.activeStream = none ∧ mapGet sid v1.streams = none :=
+  AckFlow.stop_playback_in hr h
 
 end Rml.C02
